@@ -4,6 +4,8 @@
 package c01
 
 import (
+	"math/big"
+	compact_time "github.com/kstenerud/go-compact-time"
 	compact_float "github.com/kstenerud/go-compact-float"
 	"math"
 
@@ -406,4 +408,114 @@ func structures(which int) {
 		return
 	}
 	assertSameStream(sent, got)
+}
+
+// ---- big integers and times ---------------------------------------------------
+
+func Verif_C01_BigInt() {
+	w0, w1 := verifrt.U64("w0"), verifrt.U64("w1")
+	neg := verifrt.Bool("neg")
+	words := verifrt.Choice("words", 2) + 1
+	if words == 1 {
+		verifrt.Assume(w1 == 0)
+	} else {
+		verifrt.Assume(w1 != 0)
+	}
+	b := new(big.Int).SetBits([]big.Word{big.Word(w0), big.Word(w1)})
+	if neg {
+		b.Neg(b)
+	}
+	pos := verifrt.Choice("pos", 2) // top level, list
+	_, got, _, err := roundTrip(wrap(pos, func(r events.DataEventReceiver) { r.OnBigInt(b) }))
+	verifrt.Reach("decoded")
+	verifrt.Assert(err == nil, "encoder output decodes")
+	g := got.Evs[valueIndex(pos)]
+	isZero := verifrt.And(w0 == 0, w1 == 0)
+	if words == 1 {
+		// fits 64 bits of magnitude: may come back in any integer form
+		ok, gneg, gmag := verifh.IntValue(g)
+		if g.K == verifh.KBigInt {
+			verifrt.Assert(verifrt.And(len(g.S) <= 8, g.B == verifrt.And(neg, !isZero)), "big integer of one word keeps sign")
+			return
+		}
+		verifrt.Assert(ok, "integer comes back as an integer event")
+		verifrt.Assert(verifrt.And(gmag == w0, verifrt.Or(gmag == 0, gneg == neg)), "integer value preserved")
+		return
+	}
+	verifrt.Assert(g.K == verifh.KBigInt, "a 128-bit integer comes back as a big integer")
+	verifrt.Assert(g.B == neg, "big integer keeps its sign")
+	want := make([]byte, 16)
+	for k := 0; k < 8; k++ {
+		want[k] = byte(w0 >> (8 * uint(k)))
+		want[8+k] = byte(w1 >> (8 * uint(k)))
+	}
+	verifrt.Assert(verifrt.BytesEq(g.S, want), "big integer keeps its magnitude")
+}
+
+func sameTime(a, b compact_time.Time) bool {
+	return verifrt.And(a.Type == b.Type, a.Year == b.Year, a.Month == b.Month, a.Day == b.Day,
+		a.Hour == b.Hour, a.Minute == b.Minute, a.Second == b.Second, a.Nanosecond == b.Nanosecond,
+		a.Timezone.Type == b.Timezone.Type, a.Timezone.MinutesOffsetFromUTC == b.Timezone.MinutesOffsetFromUTC,
+		a.Timezone.LatitudeHundredths == b.Timezone.LatitudeHundredths, a.Timezone.LongitudeHundredths == b.Timezone.LongitudeHundredths,
+		a.Timezone.ShortAreaLocation == b.Timezone.ShortAreaLocation, a.Timezone.LongAreaLocation == b.Timezone.LongAreaLocation)
+}
+
+func Verif_C01_Dates() {
+	year := int(verifrt.I32("year"))
+	month := int(verifrt.U8("month"))
+	day := int(verifrt.U8("day"))
+	verifrt.Assume(year != 0 && year > -100000 && year < 100000)
+	verifrt.Assume(month >= 1 && month <= 12 && day >= 1 && day <= 28)
+	t := compact_time.NewDate(year, month, day)
+	verifrt.Assume(t.Validate() == nil)
+	pos := verifrt.Choice("pos", 2) * 2 // top level, map key
+	_, got, _, err := roundTrip(wrap(pos, func(r events.DataEventReceiver) { r.OnTime(t) }))
+	verifrt.Reach("decoded")
+	verifrt.Assert(err == nil, "encoder output decodes")
+	g := got.Evs[valueIndex(pos)]
+	verifrt.Assert(g.K == verifh.KTime, "date comes back as a time event")
+	verifrt.Assert(sameTime(g.T, t), "date equal field by field")
+}
+
+func Verif_C01_TimesOfDay() {
+	hour, minute, second := int(verifrt.U8("hour")), int(verifrt.U8("minute")), int(verifrt.U8("second"))
+	verifrt.Assume(hour <= 23 && minute <= 59 && second <= 59)
+	nanos := 0
+	switch verifrt.Choice("subsecond", 4) {
+	case 1:
+		ms := int(verifrt.U16("ms"))
+		verifrt.Assume(ms >= 1 && ms <= 999)
+		nanos = ms * 1000000
+	case 2:
+		us := int(verifrt.U16("us"))
+		verifrt.Assume(us >= 1 && us <= 999)
+		nanos = us*1000 + 1000000
+	case 3:
+		ns := int(verifrt.U16("ns"))
+		verifrt.Assume(ns >= 1 && ns <= 999)
+		nanos = ns
+	}
+	var tz compact_time.Timezone
+	switch verifrt.Choice("zone", 4) {
+	case 0:
+		tz = compact_time.TZAtUTC()
+	case 1:
+		tz = compact_time.TZLocal()
+	case 2:
+		off := int(verifrt.I16("offsetMinutes"))
+		verifrt.Assume(off >= -1439 && off <= 1439 && off != 0)
+		tz = compact_time.TZWithMiutesOffsetFromUTC(off)
+	case 3:
+		lat, long := int(verifrt.I16("lat")), int(verifrt.I16("long"))
+		verifrt.Assume(lat >= -9000 && lat <= 9000 && long >= -18000 && long <= 18000)
+		tz = compact_time.TZAtLatLong(lat, long)
+	}
+	t := compact_time.NewTime(hour, minute, second, nanos, tz)
+	verifrt.Assume(t.Validate() == nil)
+	_, got, _, err := roundTrip(wrap(0, func(r events.DataEventReceiver) { r.OnTime(t) }))
+	verifrt.Reach("decoded")
+	verifrt.Assert(err == nil, "encoder output decodes")
+	g := got.Evs[valueIndex(0)]
+	verifrt.Assert(g.K == verifh.KTime, "time comes back as a time event")
+	verifrt.Assert(sameTime(g.T, t), "time equal field by field, including the time zone form")
 }
